@@ -169,7 +169,7 @@ def gen_cored_system(rng, maxn, maxL):
 def generate(ctx):
     rng = ctx.rng
     for _ in range(ctx.n(300, 3000)):
-        L = rng.choice([8, 16, 24, 32, 55]); dr = rng.choice([0.1, 0.05, 0.2, 0.25, 0.125, 0.3])
+        L = rng.choice([8, 16, 24, 32, 55]); dr = rng.choice([0.1, 0.05, 0.2, 0.25, 0.125, 0.3, 1, 2])      # 1, 2: an int spacing makes Domain.r an INTEGER array
         kind = rng.choice(['py', 'hnc', 'msa', 'ms']); hc = rng.random() < 0.6
         c = rng.random()
         sigma = (rng.randint(1, max(1, L // 2)) * dr if c < 0.5 else float('%.6g' % (rng.uniform(0.5, 0.5 * L) * dr)))
